@@ -131,6 +131,8 @@ pub fn alphabet(vs: bool, l: &LCfg) -> Vec<Hostile> {
     v.push(h("STREAM on unopened victim bidi", &[st(v_bidi(50), 0, 1, false)], &[SSTATE]));
     v.push(h("STREAM at window edge", &[st(p_bidi(1), swin.min(cwin) - 1, 1, false)], &[]));
     v.push(h("STREAM beyond stream window", &[st(p_bidi(1), swin, 1, false)], &[FLOW]));
+    // a large frame that can never be read (offset 0 is never sent); repeated, it must not pin memory
+    v.push(h("STREAM large behind gap", &[st(p_uni(1), 1, (swin.min(cwin) - 1).min(1000) as usize, false)], &[]));
     v.push(h("STREAM offset 2^62-1", &[st(p_bidi(1), (1 << 62) - 1, 1, false)], &[FLOW, FENC]));
     v.push(h("STREAM final size conflict", &[st(p_uni(1), 0, 5, true), st(p_uni(1), 5, 3, false)], &[FSIZE]));
     v.push(h("STREAM two different fins", &[st(p_uni(1), 0, 5, true), st(p_uni(1), 0, 4, true)], &[FSIZE]));
@@ -271,6 +273,7 @@ pub fn alphabet(vs: bool, l: &LCfg) -> Vec<Hostile> {
         v.push(h("DATAGRAM above advertised max", &[WFrame::Datagram { data: vec![7; 400], has_len: true }], &[PV]));
     }
     v.push(h("CRYPTO gap", &[WFrame::Crypto { off: 100, data: vec![0; 1] }], &[]));
+    v.push(h("CRYPTO large behind gap", &[WFrame::Crypto { off: 1, data: vec![0; 1000] }], &[]));
     v.push(h("CRYPTO far beyond buffer", &[WFrame::Crypto { off: 1 << 30, data: vec![0; 1] }], &[CRYPTOBUF]));
     v.push(h("CRYPTO offset 2^62-1", &[WFrame::Crypto { off: (1 << 62) - 1, data: vec![0; 1] }], &[CRYPTOBUF, FENC]));
     v.push(raw("unknown frame type 0x21", vec![0x21, 1, 2, 3], &[FENC]));
@@ -337,6 +340,8 @@ pub struct FOut {
     pub applicable: bool,
     pub trace: u64,
     pub live_after: usize,
+    /// worst reassembly buffer of the victim: (allocated estimate, distinct outstanding upper bound, chunks)
+    pub mem_worst: (usize, u64, usize),
 }
 
 /// Build the three-node world: node 0 server, node 1 client, node 2 the bystander peer.
@@ -394,7 +399,7 @@ pub fn run_frames(base: Instant, c: &FCase, alpha: &[Hostile], dump: bool) -> Re
         }
         let vch = if c.vs { p.sch() } else { Some(p.cch) };
         let Some(vch) = vch else {
-            return FOut { lost_codes: vec![], lost_other: vec![], wire_close_codes: vec![], steps: 0, other_ok: true, applicable: false, trace: 0, live_after: 0 };
+            return FOut { lost_codes: vec![], lost_other: vec![], wire_close_codes: vec![], steps: 0, other_ok: true, applicable: false, trace: 0, live_after: 0, mem_worst: (0, 0, 0) };
         };
         if c.state == VState::LocallyClosed {
             let now = p.w.now();
@@ -404,7 +409,7 @@ pub fn run_frames(base: Instant, c: &FCase, alpha: &[Hostile], dump: bool) -> Re
             p.w.settle_conn(victim, vch);
         }
         let Some(mut pup) = puppet_for(&p, if c.vs { Side::Client } else { Side::Server }) else {
-            return FOut { lost_codes: vec![], lost_other: vec![], wire_close_codes: vec![], steps: 0, other_ok: true, applicable: false, trace: 0, live_after: 0 };
+            return FOut { lost_codes: vec![], lost_other: vec![], wire_close_codes: vec![], steps: 0, other_ok: true, applicable: false, trace: 0, live_after: 0, mem_worst: (0, 0, 0) };
         };
         // freeze the real peer of the victim connection; the puppet speaks in its place
         p.w.deaf[puppet_node] = true;
@@ -457,6 +462,10 @@ pub fn run_frames(base: Instant, c: &FCase, alpha: &[Hostile], dump: bool) -> Re
             }
         }
         let slot = p.w.slot(victim, vch).unwrap();
+        let mem_worst = {
+            let pr = slot.conn.verif_probe();
+            pr.streams.recv_memory.iter().copied().chain(pr.crypto_memory.iter().copied()).max_by_key(|(a, u, _)| (*a as u64).saturating_sub(*u)).unwrap_or((0, 0, 0))
+        };
         let mut lost_codes = vec![];
         let mut lost_other = vec![];
         for e in slot.lost.iter().skip(lost_before) {
@@ -503,6 +512,7 @@ pub fn run_frames(base: Instant, c: &FCase, alpha: &[Hostile], dump: bool) -> Re
             applicable: true,
             trace: p.w.trace_hash(),
             live_after: crate::alloc::live(),
+            mem_worst,
         }
     })
 }
@@ -525,7 +535,9 @@ fn resource_payload(hh: &Hostile, r: u64, vs: bool) -> Vec<u8> {
     wire::frames_bytes(&f)
 }
 
-const RESOURCE: [&str; 8] = [
+const RESOURCE: [&str; 10] = [
+    "STREAM large behind gap",
+    "CRYPTO large behind gap",
     "NEW_CONNECTION_ID retire all",
     "PATH_CHALLENGE x20",
     "STREAM new uni fin",
@@ -553,6 +565,12 @@ fn judge(c: &FCase, alpha: &[Hostile], o: &FOut) -> Vec<(String, String)> {
     }
     if o.steps > 15_000 {
         v.push((format!("unbounded-activity:{role}"), format!("{} steps of activity within 3 s after {names:?}", o.steps)));
+    }
+    // what a reassembly buffer holds stays in proportion to the distinct bytes outstanding, however
+    // often the peer repeats itself
+    let (alloc, uniq, chunks) = o.mem_worst;
+    if alloc as u64 > 3 * uniq + 65_536 || chunks > 1100 {
+        v.push((format!("reassembly-memory-unbounded:{role}:{}", names[0]), format!("after {} x {names:?} a reassembly buffer accounts for {alloc} allocated bytes in {chunks} chunks while at most {uniq} distinct bytes are outstanding", c.repeat.max(1))));
     }
     if c.state == VState::LocallyClosed {
         if !o.lost_codes.is_empty() {
